@@ -86,6 +86,12 @@ def _iter_spec(rng: random.Random, name: str, maxlen: int = 8) -> dict:
         if name == "zip_longest" and rng.random() < 0.5:
             spec["params"]["fillvalue"] = rng.choice([["item", 7, "fill"], ["none"], ["raw", 0]])
         return spec
+    if name in ("filter", "dropwhile", "takewhile", "filterfalse") and rng.random() < 0.15:
+        # a predicate that is only PARTIALLY defined (x < 2 raises for None / a string / a tuple): it fails exactly
+        # for the items the stdlib tool asks it about -- not for items behind the point where the tool stops asking
+        pool = [0, 1, 2, 3, 5, 1, 0, None, "tail", ["T", 1]]
+        return {"tool": name, "raw": True, "srcs": [raw_seq(rng, pool, maxlen)],
+                "fns": [rng.choice(["lt1", "lt2", "lt3", "even"])], "params": {}}
     if name in ("filter", "dropwhile", "takewhile", "filterfalse"):
         return {"tool": name, "srcs": [keys_seq(rng, maxlen, rng.choice([2, 3, 4, 5]))], "fns": [rng.choice(PREDS)], "params": {}}
     if name == "filter_none":
